@@ -737,33 +737,28 @@ def render_extract(ex, vac=False, strip_proof=False):
         log[-1]['reason'] = why
     for a, b in ex.letty:
         body = letty_replace(body, a, b, log)
-    # closures first (token indexes change afterwards): process from last to first
+    # all splices are anchored in the same text (the body after the R-rules) and applied back to front
     degraded = []
+    edits = []   # (start, end, replacement)
+    toks = tokenize(body)
     if ex.closures:
-        toks = tokenize(body)
         cl = find_closures(toks)
-        edits = []
         for kidx, (hdr, lines) in ex.closures.items():
             if kidx < 1 or kidx > len(cl):
                 degraded.append('closure %d not found (%d closures)' % (kidx, len(cl)))
                 continue
             b0, b1 = cl[kidx - 1]
-            s, e = closure_body_span(toks, b1)
-            inner = join(toks[s:e + 1])
+            s_, e_ = closure_body_span(toks, b1)
             contract = '\n'.join(lines)
-            if toks[s][1] == '{':
-                newc = '%s\n%s\n %s' % (hdr, contract, inner)
-            else:
-                newc = '%s\n%s\n { %s }' % (hdr, contract, inner)
-            edits.append((toks[b0][2], toks[e][3], newc))
+            # header replacement and (if needed) block wrapping are two separate edits so that splices inside the
+            # closure body stay possible
+            edits.append((toks[b0][2], toks[b1][3], '%s\n%s\n' % (hdr, contract)))
+            if toks[s_][1] != '{':
+                edits.append((toks[s_][2], toks[s_][2], ' { '))
+                edits.append((toks[e_][3], toks[e_][3], ' }'))
             log.append({'rule': 'R7', 'closure': kidx, 'header': join(toks[b0:b1 + 1]), 'annotated': hdr})
-        for s, e, newc in sorted(edits, reverse=True):
-            body = body[:s] + newc + body[e:]
-    # loops
     if ex.loops or ex.loop_iter:
-        toks = tokenize(body)
         lp = find_loops(toks)
-        edits = []
         for kidx, lines in ex.loops.items():
             if kidx < 1 or kidx > len(lp):
                 degraded.append('loop %d not found (%d loops)' % (kidx, len(lp)))
@@ -786,8 +781,7 @@ def render_extract(ex, vac=False, strip_proof=False):
                 j += 1
             edits.append((toks[j][3], toks[j][3], ' %s:' % nm))
             log.append({'rule': 'R7', 'loop': kidx, 'iter_name': nm})
-        for s, e, newc in sorted(edits, reverse=True):
-            body = body[:s] + newc + body[e:]
+
     def nth_index(text, lit, n):
         p = -1
         for _ in range(n):
@@ -800,7 +794,7 @@ def render_extract(ex, vac=False, strip_proof=False):
         if p < 0:
             degraded.append('before: literal (occurrence %d) not found: %r' % (nth, lit))
             continue
-        body = body[:p] + '\n'.join(lines) + '\n        ' + body[p:]
+        edits.append((p, p, '\n'.join(lines) + '\n        '))
         log.append({'rule': 'R7', 'before': lit, 'spliced_lines': len(lines)})
     for (lit, nth), lines in ex.after:
         p = nth_index(body, lit, nth)
@@ -808,8 +802,17 @@ def render_extract(ex, vac=False, strip_proof=False):
             degraded.append('after: literal (occurrence %d) not found: %r' % (nth, lit))
             continue
         p = p + len(lit)
-        body = body[:p] + '\n        ' + '\n'.join(lines) + '\n        ' + body[p:]
+        edits.append((p, p, '\n        ' + '\n'.join(lines) + '\n        '))
         log.append({'rule': 'R7', 'after': lit, 'spliced_lines': len(lines)})
+    # apply back to front; insertions at the same position keep their listed order
+    order = sorted(range(len(edits)), key=lambda i: (edits[i][0], i), reverse=True)
+    last_start = None
+    for i in order:
+        s0, e0, rep = edits[i]
+        if last_start is not None and e0 > last_start:
+            raise Undecided('overlapping splices in %s' % name)
+        body = body[:s0] + rep + body[e0:]
+        last_start = s0
     contract = list(ex.contract)
     if vac:
         txt = '\n'.join(contract)
